@@ -10,7 +10,7 @@ import subprocess
 import sys
 import sysconfig
 
-REPO = '/repo'
+REPO = os.environ.get('VERIF_REPO', '/repo')      # checks run against /repo; VERIF_REPO lets a scratch worktree be checked in parallel
 
 
 def ensure():
